@@ -343,6 +343,28 @@ def run(ctx):
             else:
                 ctx.check(p.ret == ("param", 2, ()), "C12-d", c.key, "otherwise the caller's path is sent unchanged", "returns %s" % pa.vfmt(p.ret), "")
         ctx.floor("C12-d", "paths of the path normaliser", len(ps), 2)
+    elif pr:
+        # the normaliser written in place (`match path_and_query { Some(path) => if path.path().is_empty() && .. {"/"} else {path}, None => "/" }`):
+        # the same table read off the paths of Pseudo::request itself, from the value that ends up in the `path` slot
+        names2_ = [f_["name"] for f_ in prog.adts[H + "Pseudo"]["variants"][0]["fields"]]
+        n_np = 0
+        for p in [p for p in ru.all_paths(ctx, "C12-d", pr, max_visits=1) if p.end == "return" and p.ret is not None and p.ret[0] == "agg"]:
+            pv = dict(zip(names2_, p.ret[3])).get("path")
+            if pv is None or pv[0] != "agg" or pv[2] != "Some":
+                continue
+            n_np += 1
+            val = pv[3][0]
+            rep = expr.mentions(val, lambda v: v[0] == "call" and v[1].endswith("PathAndQuery::from_static"))
+            em = [t for t in p.tests if t[3][0] == "call" and pa.short(t[3][1]) == "is_empty" and t[3][2] and t[3][2][0][0] == "call" and t[3][2][0][1] == "http::uri::path::PathAndQuery::path"]
+            pq = [t[2] for t in p.tests if t[3][0] == "discr" and "path_and_query" in t[1]]
+            if rep:
+                ok = (em and em[0][2] == "true") or pq[:1] == ["None"]
+                ctx.check(bool(ok), "C12-d", pr.key, "caller's path replaced by \"/\" only when its path component is empty",
+                          "the request target's path-and-query is replaced by \"/\" on a path whose condition is %s" % [(t[1][:60], t[2]) for t in p.tests][-3:], "", None, p.describe())
+            else:
+                ctx.check("path_and_query" in pa.vfmt(val) and not expr.mentions(val, lambda v: v[0] == "call" and pa.short(v[1]) not in ("from", "into", "clone")), "C12-d", pr.key,
+                          "otherwise the caller's path is sent unchanged", "path slot = %s" % pa.vfmt(val)[:100], "")
+        ctx.floor("C12-d", "paths of Pseudo::request that set :path", n_np, 2)
     else:
         ctx.missing("C12-d", H + "Pseudo::request::{closure#1}")
     rsps = ru.need(ctx, "C12-d", H + "Pseudo::response")
